@@ -9,6 +9,15 @@
                 finished when the executor receives it (`ready`: the pool ran the task at once);
     * `out`   — what the resolver does: returns a value, raises `ResolverError`, raises an
                 unexpected exception.
+  A ResolverError raised while the returned value is COMPLETED (a custom scalar's `serialize`, an abstract
+  type's `resolve_type`, a lazy iterable raising while the list is completed) is caught by the same handler
+  (`else_=(ResolverError, fail)` around `complete` in `Executor.resolve_field`; `except ResolverError` around
+  `complete_value` in `BlockingExecutor.resolve_field` since /repo 7b8e151) and has the same effect as the resolver
+  itself raising it: `done`, then the field is null with one error at the field's path. When nothing else happened
+  before the raise (no sub-field resolver invoked, no non-null violation recorded) it is therefore THE SAME EVENT in
+  this form — `ROut.rerr` — and `async_eq_blocking`, `failure_does_not_stop`, `serial_order` cover it as such
+  (harness: `to_model` maps it to `rerr`). A completion that raises AFTER sub-resolvers of the same field were
+  started is outside this form (known finding E1: the generic executor abandons them in flight).
   A returned value is described together with the type it is completed at (`Comp`): `nonNull c`
   is the `NonNullType` wrapper around the completion of `c`, `null` is `None`, `leaf` a serialisable
   scalar, `bad` a value for which `complete_value` raises `RuntimeError` (not iterable / not
